@@ -269,8 +269,17 @@ def execute(prop, tier, seed):
         for j in jobs:
             j["tree"] = "src"
     else:
+        rejected = {}
         for name, xml_dir in prop.trees(tier):
-            root, ok, msg = scratch.build_tree(xml_dir, repo)
+            if name.startswith("pairs"):
+                root, ok, msg, dropped = scratch.build_tree_tolerant(xml_dir, repo)
+                for dn, why in dropped:
+                    # the unchanged generator accepts every spec of the generated corpus: a rejection is reported
+                    # (exit 2 unless a violation is found as well) and the rest of the tree is still checked
+                    run.problem(f"generator rejects the grammatical spec {dn} of corpus tree {name}: {why}")
+                    rejected.setdefault(name, set()).add(dn)
+            else:
+                root, ok, msg = scratch.build_tree(xml_dir, repo)
             if not ok:
                 handled = False
                 if hasattr(prop, "on_generator_failure"):
@@ -280,6 +289,17 @@ def execute(prop, tier, seed):
                 continue
             roots[name] = root
         jobs = [j for j in jobs if j.get("tree", "core") in roots]
+        if rejected:
+            def _gone(j):
+                names = rejected.get(j.get("tree", "core"))
+                if not names:
+                    return False
+                for a_ in j.get("args", []):
+                    if isinstance(a_, dict) and "name" in a_ and "module" in a_:
+                        if a_["name"].split(".")[0] in names:
+                            return True
+                return False
+            jobs = [j for j in jobs if not _gone(j)]
     log(f"[t+{time.time()-run.t0:.1f}s] roots ready")
     tasks = []
     for j in jobs:
